@@ -75,6 +75,7 @@ def usageCfg : UsageCfg :=
     pctUsed := Gen.C09.usagePct.1
     pctTotal := Gen.C09.usagePct.2.1
     pctRound := Gen.C09.usagePct.2.2
+    pctShape := Gen.C09.usagePercentIsRatioTimes100
     outTotal := Gen.C09.usageOut.1
     outUsed := Gen.C09.usageOut.2.1
     outFree := Gen.C09.usageOut.2.2 }
